@@ -118,9 +118,23 @@ class Hist1DAdapter(Adapter):
                 vals = self._values(batch)
                 w = self._weights(batch, weighted)
                 cont = self._container(vals)
+                kw = {}
                 if w is not None and isinstance(cont, np.ndarray) and cont.ndim == 2:
                     w = np.asarray(w).reshape(cont.shape)
-                real = self.physt.h1(guard.track(cont), self._bins_arg(L), weights=guard.track(w), keep_missed=keep)
+                if self.spelling % 4 == 3 and len(vals) >= 2:
+                    # "any shape": a 2-D view that is not C-contiguous; without NaN also through dropna=False, where values and
+                    # weights are flattened by separate routines.  Weighted batches are doubled by the same values with weight 0
+                    # (they add nothing), so that even two entries give a (2, 2) view whose memory order is not its C order
+                    v2, w2 = list(vals), (None if w is None else [x for x in np.asarray(w).ravel().tolist()])
+                    if w2 is not None:
+                        v2, w2 = v2 + v2, w2 + [0 * x for x in w2]
+                    if len(v2) % 2 == 0 and len(v2) >= 4:
+                        cont = np.array(v2, dtype=float).reshape(-1, 2).T
+                        if w2 is not None:
+                            w = np.ascontiguousarray(np.asarray(w2, dtype=np.asarray(w).dtype).reshape(-1, 2).T)
+                        if not any(v != v for v in v2):
+                            kw["dropna"] = False
+                real = self.physt.h1(guard.track(cont), self._bins_arg(L), weights=guard.track(w), keep_missed=keep, **kw)
             elif action == "Fill":
                 p, w, r = args
                 x = self.pe.x(p)
